@@ -3,6 +3,7 @@ mod builder;
 mod calls;
 mod convert;
 mod docs;
+mod events;
 mod ffi;
 mod project;
 mod scale;
@@ -29,6 +30,7 @@ fn main() {
         "spans" => prec::main_spans(&args[1..]),
         "calls" => calls::main(&args[1..]),
         "docs" => docs::main(&args[1..]),
+        "events" => events::main(&args[1..]),
         "subsets" => subsets::main(&args[1..]),
         "meta" => meta::main(&args[1..]),
         "shared" => shared::main(&args[1..]),
